@@ -165,7 +165,7 @@ def audit(pid):
             bad.append("%s uses %s" % (name, extra))
     if rc != 0:
         bad.append("audit file failed to elaborate (rc=%d)" % rc)
-    if "error" in out and rc == 0:
+    if rc == 0 and re.search(r":\d+:\d+: error|^error", out, flags=re.M):
         bad.append("audit output contains an error")
     return {"ok": not bad and len(theorems) > 0, "theorems": theorems, "bad": bad, "output": out}
 
